@@ -7,11 +7,14 @@ replays exactly.
           ["gif", w, h, nframes, frame]  animated GIF file (imgkit.gif), image seeked to *frame*
           ["apng", w, h, nframes, frame, mode]  animated PNG file in mode RGB / RGBA (all frames distinct,
                                          RGBA frames with an alpha pattern), image seeked to *frame*
+          ["tiff", w, h, npages, page]   multi-page TIFF whose pages have MIXED modes (RGB, RGBA, LA, RGB...;
+                                         same pattern, alpha 0 / 39 / 40 / 128 / 255), image seeked to *page*
           ["uni", w, h, [r,g,b,a]]       uniformly coloured RGBA image
           ["pix", w, h, mode, [..]]      explicit pixel list (putdata)
           ["mode", w, h, m]              pattern in PIL mode m incl. "P+t" (palette + transparent index)
           ["fn"|"nf", w, h, mode]        flat top / noise bottom half (or the reverse): strips of very
                                          different compressibility
+    pil_at  (pilfile / pilmem only) frame the PIL image is left positioned on before the image object is built
     kind  "pil"      PIL image built in memory (no file behind it)
           "file"     <Style>Image.from_file(path)
           "pilfile"  <Style>Image(PIL.Image.open(path))   (a PIL source with a readable file)
@@ -140,7 +143,8 @@ def source_path(src, fmt):
     return path
 
 
-ANIMATED_KINDS = ("gif", "apng")
+ANIMATED_KINDS = ("gif", "apng", "tiff")
+TIFF_MODES = ("RGB", "RGBA", "LA")
 
 
 def is_animated_src(src):
@@ -148,11 +152,24 @@ def is_animated_src(src):
 
 
 def default_fmt(src):
-    return {"gif": "gif", "apng": "png"}.get(src[0], "png")
+    return {"gif": "gif", "apng": "png", "tiff": "tiff"}.get(src[0], "png")
 
 
 def _write_source(src, fmt, tmp):
-    if src[0] == "apng":
+    if src[0] == "tiff":
+        _, w, h, n, _page = src
+        base = imgkit.pattern(w, h, "RGBA")
+        pages = []
+        for k in range(n):
+            m = TIFF_MODES[k % len(TIFF_MODES)]
+            if m == "LA":
+                pg = base.convert("L").convert("LA")
+                pg.putalpha(base.getchannel("A"))
+            else:
+                pg = base.convert(m)
+            pages.append(pg)
+        pages[0].save(tmp, "TIFF", save_all=True, append_images=pages[1:])
+    elif src[0] == "apng":
         _, w, h, n, _frame, mode = src
         frames = [imgkit.pattern(w, h, mode, seed=3 * k + 1) for k in range(n)]
         frames[0].save(tmp, "PNG", save_all=True, append_images=frames[1:], duration=100, loop=0,
@@ -244,10 +261,14 @@ def build(case, w=None, h=None):
 
             with open(path, "rb") as f:
                 pil = Image.open(io.BytesIO(f.read()))
+            if case.get("pil_at") is not None:
+                pil.seek(case["pil_at"])
             img = cls(pil, **size_kw)
             path = None
         else:
             pil = Image.open(path)
+            if case.get("pil_at") is not None:
+                pil.seek(case["pil_at"])
             img = cls(pil, **size_kw)
     if src[0] in ANIMATED_KINDS:
         img.seek(src[4])
